@@ -44,9 +44,17 @@ def tlc_gf2_transitions(wd, R, D):
     return lines, n
 
 
-def random_gf2_history(rng, R, D, length):
-    lines = [gf2_reset_line([sorted(rng.sample(range(D), rng.randint(0, min(D, 6)))) for _ in range(R)])]
+def random_gf2_history(rng, R, D, length, skewed=False):
+    """skewed: operands of very different lengths (a few coordinates against most of the dimension) - the regime in which an
+    implementation may switch to another algorithm (binary search of the short operand in the long one, galloping, ...)"""
+    def sz():
+        if not skewed:
+            return rng.randint(0, min(D, 6))
+        return rng.choice([0, 1, 2, 2, 3, 4, D // 3, D // 2, D - D // 8, D - 1, D])
+    lines = [gf2_reset_line([sorted(rng.sample(range(D), sz())) for _ in range(R)])]
     ops = ['Unit', 'FromSet', 'Default', 'Copy', 'Move', 'Assign', 'MoveAssign', 'Plus', 'Plus', 'PlusAssign', 'PlusAssign', 'Dot', 'Dot', 'DotSet', 'Clear', 'Swap']
+    if skewed:
+        ops = ops + ['Dot'] * 8 + ['DotSet'] * 6 + ['FromSet'] * 3
     for _ in range(length):
         op = rng.choice(ops)
         d, a, b = rng.randrange(R), rng.randrange(R), rng.randrange(R)
@@ -54,7 +62,7 @@ def random_gf2_history(rng, R, D, length):
             a = (d + 1) % R
         if op == 'Unit':
             a = rng.randrange(D)
-        s = sorted(rng.sample(range(D), rng.randint(0, min(D, 7)))) if op in ('FromSet', 'DotSet') else []
+        s = sorted(rng.sample(range(D), sz() if skewed else rng.randint(0, min(D, 7)))) if op in ('FromSet', 'DotSet') else []
         lines.append(gf2_line({'op': op, 'd': d, 'a': a, 'b': b, 'set': s}))
     return lines
 
@@ -128,13 +136,16 @@ def check_C17(res, tier, seed, replay):
         hl = []
         for k in range(nh):
             hl += random_gf2_history(rng, 3, rng.choice([4, 8, 16, 40, 64]), 40)
+        for k in range(nh):
+            hl += random_gf2_history(rng, 3, rng.choice([24, 40, 64, 100, 160]), 30, skewed=True)
+        nh += nh
         trace2, ev2, v2 = run_script(res, exe, wd, 'gf2h', hl, 'Trace_GF2', 'Trace_GF2.cfg', '"op":"Reset"')
         res.add_validation(v2, nh)
         judge(res, v2, 'Trace_GF2')
         res.cov['event_counts'] = {'transitions': ev, 'histories': ev2}
         res.cov['evaluations'] = sum(ev.values()) + sum(ev2.values())
         res.cov['distinct_nontrivial'] = ntrans
-        res.cov['rule'] = 'distinct = distinct (register state, operation) pairs generated by TLC from SpVecGF2.tla; all are non-trivial (each executes one public operation); plus %d random histories of length 40' % nh
+        res.cov['rule'] = 'distinct = distinct (register state, operation) pairs generated by TLC from SpVecGF2.tla; all are non-trivial (each executes one public operation); plus %d random histories of length 30-40 (half of them with operands of very different lengths, dimension up to 160)' % nh
         with open(trace2) as f:
             res.sample([json.loads(next(f)) for _ in range(4)])
     finally:
@@ -152,6 +163,8 @@ def random_fp_history(rng, T, p, R, D, length, kmax=50):
         regs.append([(i, rng.randint(1, p - 1) if p > 1 else 1) for i in idx])
     lines = [fp_reset_line(T, p, regs)]
     ops = ['Unit', 'Copy', 'Assign', 'Plus', 'Plus', 'PlusAssign', 'PlusAssign', 'Scale', 'Scale', 'ScaleAssign', 'Dot', 'Dot', 'Clear']
+    if skewed:
+        ops = ops + ['Dot'] * 8 + ['DotSet'] * 6 + ['FromSet'] * 3
     for _ in range(length):
         op = rng.choice(ops)
         d, a, b = rng.randrange(R), rng.randrange(R), rng.randrange(R)
